@@ -22,6 +22,7 @@ RULE = (
     "Interrupts pause in dependency order. Non-trivial: >= 1 pause observed; distinct = (program shape, interrupt "
     "positions)."
     ' 40% of the interrupts also emit a signal that a later node only waits for (no data dependency); an interrupt 1-3 levels below a mapped graph must be rejected or surface its pause, never end COMPLETED.'
+    " Also: nested graphs mounted under a name other than their graph's (as_node(name=...), with_name)."
 )
 ASSUMPTIONS = [
     "no node upstream of an interrupt runs early on a fallback value (then the interrupt is legitimately re-executed and asks again)",
